@@ -88,6 +88,37 @@ def real_optimize(prog):
 
 
 OP_CACHE = {}       # operation instances shared within and across programs (half of the specs)
+SUSPECTS = []       # specs on which the optimiser and the model disagree: inputs for the directed oracle
+
+
+def directed(ctx, sf, rng):
+    """the model proves the optimised grid equivalent on EVERY input state; where the real optimiser returns another
+    grid, execute that spec directedly: fresh engine and as a later segment after an entangling preparation segment,
+    on the gaussian or fock back end, through optimize() and the compile option"""
+    seen = set()
+    while SUSPECTS and len(seen) < 25 and ctx.dist.get("directed_oracle", 0) < 60 and ctx.dist.get("directed_oracle_hit", 0) < 4:
+        spec = SUSPECTS.pop(0)
+        key = json.dumps(spec, sort_keys=True)
+        if key in seen:
+            continue
+        seen.add(key)
+        n0 = len(ctx.failures)
+        fl = flavour_of(spec)
+        if any(isinstance(p, dict) and "m" in p for o in spec["ops"] for p in o.get("pars", [])):
+            pres = [None]
+        else:
+            pres = [None, og.pre_segment(rng, spec["n"], fl == "gaussian")]
+        for pre in pres:
+            try:
+                oracle_program(ctx, sf, spec, fl, None, None, True, False, False, pre=pre,
+                               compilers=["fock"] if fl == "fock" else ["gaussian", "fock"])
+            except Exception as e:
+                ctx.fail(f"oracle-raises:{type(e).__name__}", f"executing the programs raised {type(e).__name__}: {str(e)[:200]}",
+                         dict(kind="program", spec=spec, backend=fl, how="optimize", pre=pre))
+        ctx.tally("directed_oracle", 1)
+        if len(ctx.failures) > n0:
+            ctx.tally("directed_oracle_hit", 1)
+    del SUSPECTS[200:]
 
 
 def linked_copy_contract(prog, opt):
@@ -215,11 +246,15 @@ def flush_optimizer(ctx, batch):
             if not ok:
                 break
         if not ok:
+            SUSPECTS.append(b["spec"])
             ctx.disagree("K1.optGrid vs optimize_circuit (per wire)", b["spec"],
                          {str(w): [[c["id"], c["cls"], c["pars"], c["dagger"]] for c in r] for w, r in mrows.items()},
                          {str(w): [[c["id"], c["cls"], c["pars"], c["dagger"]] for c in r] for w, r in rrows.items()})
             continue
         checks.append(b)
+    if SUSPECTS:
+        import strawberryfields as _sf
+        directed(ctx, _sf, ctx.rng)
     if checks:
         res = ctx.lean([dict(op="opt.check", l=b["l"], out=b["out"], B=b["B"]) for b in checks])
         for b, okm in zip(checks, res):
@@ -363,11 +398,15 @@ def corr_merge(ctx, rng, count):
 
 # ------------------------------------------------------------------ (b) oracle: execute and compare
 
-def run_state(sf, prog, backend, cutoff=None, args=None):
+def run_state(sf, prog, backend, cutoff=None, args=None, pre=None):
+    """final state of `prog`; with `pre` (a spec) the program is a LATER segment: the engine first runs the
+    preparation segment, so the program under test acts on a non-vacuum register"""
     opts = {"cutoff_dim": cutoff} if backend == "fock" else {}
     eng = sf.Engine(backend, backend_options=opts)
     with warnings.catch_warnings():
         warnings.simplefilter("ignore")
+        if pre is not None:
+            eng.run(og.build(pre, name="pre")[0])
         res = eng.run(prog, args=args or {})
     return res.state
 
@@ -378,6 +417,12 @@ def state_diff(backend, s1, s2):
         m1, m2, c1, c2 = s1.means(), s2.means(), s1.cov(), s2.cov()
         scale = max(1.0, float(np.max(np.abs(m1))), float(np.max(np.abs(c1))))
         return max(float(np.max(np.abs(m1 - m2))), float(np.max(np.abs(c1 - c2)))), scale, 0.0
+    if backend == "bosonic":
+        parts = [(s1.weights(), s2.weights()), (s1.means(), s2.means()), (s1.covs(), s2.covs())]
+        if any(np.shape(a) != np.shape(b) for a, b in parts):
+            return float("inf"), 1.0, 0.0
+        scale = max([1.0] + [float(np.max(np.abs(a))) for a, _ in parts])
+        return max(float(np.max(np.abs(np.asarray(a) - np.asarray(b)))) for a, b in parts), scale, 0.0
     d1, d2 = s1.dm(), s2.dm()
 
     def leak(s):
@@ -391,14 +436,14 @@ def state_diff(backend, s1, s2):
     return float(np.max(np.abs(d1 - d2))), 1.0, float(slack)
 
 
-def equivalent(sf, backend, p1, p2, args, cutoff=10):
+def equivalent(sf, backend, p1, p2, args, cutoff=10, pre=None):
     """None when the two programs produce the same state, else a description.  Fock: truncation
     escalation rule of DESIGN 1.6.  Gaussian: 1e-8 * scale; 2e-6 * scale when the program post-selects a
     homodyne outcome (the backend conditions on a finitely squeezed projector, which amplifies rounding
     differences of the pre-measurement covariance by ~1e7)."""
-    s1, s2 = run_state(sf, p1, backend, cutoff, args), run_state(sf, p2, backend, cutoff, args)
+    s1, s2 = run_state(sf, p1, backend, cutoff, args, pre), run_state(sf, p2, backend, cutoff, args, pre)
     d, scale, slack = state_diff(backend, s1, s2)
-    if backend == "gaussian":
+    if backend in ("gaussian", "bosonic"):
         tol = 2e-6 if any(type(c.op).__name__.startswith("Measure") for c in p1.circuit) else 1e-8
         return None if d <= tol * scale else f"states differ by {d:.3e} (scale {scale:.2f})"
     if d <= slack + 1e-7:
@@ -409,7 +454,7 @@ def equivalent(sf, backend, p1, p2, args, cutoff=10):
     steps = [cutoff + 6, cutoff + 14, cutoff + 22] if n <= 1 else [cutoff + 6, cutoff + 12]
     hist = [(cutoff, d)]
     for D in steps:
-        s1, s2 = run_state(sf, p1, backend, D, args), run_state(sf, p2, backend, D, args)
+        s1, s2 = run_state(sf, p1, backend, D, args, pre), run_state(sf, p2, backend, D, args, pre)
         dk, _, _ = state_diff(backend, s1, s2)
         hist.append((D, dk))
         if dk <= max(1e-6, d / 2):
@@ -421,9 +466,15 @@ def spec_args(spec):
     return {"x": X_VALUE} if og.free_names(spec) else {}
 
 
-def oracle_program(ctx, sf, spec, backend, prog=None, opt=None, compiled=True, shared_ops=False, rerun=False):
+def oracle_program(ctx, sf, spec, backend, prog=None, opt=None, compiled=True, shared_ops=False, rerun=False,
+                   pre=None, compilers=None):
     """original vs optimize(); compile(optimize=False) vs compile(optimize=True); with `rerun` also the original
     after optimisation vs a freshly built equal program"""
+    nmodes = spec["n"] + sum(len(o["regs"]) for o in spec["ops"] if o["cls"] == "New")
+    if backend == "fock" and nmodes > 2:      # a mixed 3-mode Fock state at cutoff 16+ does not fit
+        ctx.tally("oracle_skipped_fock_too_large")
+        return
+    compilers = [c for c in (compilers or [backend]) if c != "fock" or nmodes <= 2]
     if prog is None:
         prog, _ = og.build(spec, op_cache=OP_CACHE if shared_ops else None)
         opt = real_optimize(prog)
@@ -434,18 +485,21 @@ def oracle_program(ctx, sf, spec, backend, prog=None, opt=None, compiled=True, s
               changed and len({w for o in spec["ops"] for w in o["regs"]}) >= 2,
               sample=dict(spec=spec, optimized=[str(c) for c in opt.circuit]))
     ctx.oracle_cases += 1
+    seg = " as a later segment (non-vacuum register)" if pre is not None else ""
+    if pre is not None:
+        ctx.tally(f"later_segment:{backend}")
     try:
-        why = equivalent(sf, backend, prog, opt, args)
+        why = equivalent(sf, backend, prog, opt, args, pre=pre)
     except Exception as e:  # an optimised program that cannot be executed while the original can
         try:
-            run_state(sf, prog, backend, 10, args)
+            run_state(sf, prog, backend, 10, args, pre)
         except Exception:
             ctx.tally("oracle_unrunnable_original")
             return
         why = f"optimised program raises {type(e).__name__}: {e}"
     if why:
-        ctx.fail(f"optimize-changes-state:{backend}", f"optimize(): {why}; optimised circuit {[str(c) for c in opt.circuit]}",
-                 dict(kind="program", spec=spec, backend=backend, how="optimize", shared=shared_ops))
+        ctx.fail(f"optimize-changes-state:{backend}", f"optimize(){seg}: {why}; optimised circuit {[str(c) for c in opt.circuit]}",
+                 dict(kind="program", spec=spec, backend=backend, how="optimize", shared=shared_ops, pre=pre))
     if fresh is not None:
         # the original, executed after it was optimised (and after the optimised copy was executed), against a
         # freshly built equal program that never saw the optimiser
@@ -459,27 +513,34 @@ def oracle_program(ctx, sf, spec, backend, prog=None, opt=None, compiled=True, s
                      dict(kind="program", spec=spec, backend=backend, how="optimize", shared=shared_ops))
     if not compiled:
         return
-    try:
-        before = snapshot(prog)
-        with warnings.catch_warnings():
-            warnings.simplefilter("ignore")
-            c0 = prog.compile(compiler=backend, optimize=False)
-            c1 = prog.compile(compiler=backend, optimize=True)
-        if snapshot(prog) != before:
-            ctx.fail("compile-mutates-original", "compile(optimize=True) modified the original program",
-                     dict(kind="purity", spec=spec, how="compile", backend=backend))
-    except Exception:
-        ctx.tally("oracle_compile_rejected")
-        return
-    ctx.oracle_cases += 1
-    ctx.tally(f"compile:{backend}:" + ("changed" if len(c1.circuit) != len(c0.circuit) else "unchanged"))
-    try:
-        why = equivalent(sf, backend, c0, c1, args)
-    except Exception as e:
-        why = f"compile(optimize=True) result raises {type(e).__name__}: {e}"
-    if why:
-        ctx.fail(f"compile-optimize-changes-state:{backend}", f"compile(optimize=True) vs compile(optimize=False): {why}",
-                 dict(kind="program", spec=spec, backend=backend, how="compile", shared=shared_ops))
+    for comp in compilers:
+        try:
+            before = snapshot(prog)
+            with warnings.catch_warnings():
+                warnings.simplefilter("ignore")
+                c0 = prog.compile(compiler=comp, optimize=False)
+                c1 = prog.compile(compiler=comp, optimize=True)
+            if snapshot(prog) != before:
+                ctx.fail("compile-mutates-original", "compile(optimize=True) modified the original program",
+                         dict(kind="purity", spec=spec, how="compile", backend=comp))
+        except Exception:
+            ctx.tally(f"oracle_compile_rejected:{comp}")
+            continue
+        ctx.oracle_cases += 1
+        ctx.tally(f"compile:{comp}:" + ("changed" if len(c1.circuit) != len(c0.circuit) else "unchanged"))
+        try:
+            why = equivalent(sf, comp, c0, c1, args, pre=pre)
+        except Exception as e:
+            try:
+                run_state(sf, c0, comp, 10, args, pre)
+            except Exception:
+                ctx.tally(f"oracle_unrunnable_compiled:{comp}")
+                continue
+            why = f"compile(optimize=True) result raises {type(e).__name__}: {e}"
+        if why:
+            ctx.fail(f"compile-optimize-changes-state:{comp}",
+                     f"compile(compiler={comp!r}, optimize=True) vs optimize=False{seg}: {why}; optimised circuit {[str(c) for c in c1.circuit][:14]}",
+                     dict(kind="program", spec=spec, backend=comp, how="compile", shared=shared_ops, pre=pre))
     if fresh is not None:
         ctx.oracle_cases += 1
         try:
@@ -489,6 +550,64 @@ def oracle_program(ctx, sf, spec, backend, prog=None, opt=None, compiled=True, s
         if why:
             ctx.fail(f"original-changed-by-compile:{backend}", f"the original program computes something else after compile(optimize=True): {why}",
                      dict(kind="program", spec=spec, backend=backend, how="compile", shared=shared_ops))
+
+
+# ---- exact special values: every gate class with p[0] exactly 0 (and other exact angles) next to other gates
+
+def flavour_of(spec):
+    return "fock" if any(o["cls"] in og.NON_GAUSSIAN for o in spec["ops"]) else "gaussian"
+
+
+def special_value_specs(rng):
+    """every gate family with first parameter EXACTLY 0 (plain and daggered; for MZgate / sMZgate also the external
+    phase exactly 0, pi), embedded between other gates on a displaced, squeezed 2-mode register; plus interferometers
+    whose decomposition contains Mach-Zehnder gates with internal phase exactly 0"""
+    allg = {**og.GATES1, **og.GATES2}
+    specs = []
+    for cls, npar in allg.items():
+        if npar == 0:
+            continue
+        small = cls in og.NON_GAUSSIAN
+        head = [dict(cls="Coherent", regs=[0], pars=[0.5 if small else 1.0, 0.25]),
+                dict(cls="Squeezed", regs=[1], pars=[0.25 if small else 0.5, 0.5])]
+        tails = [og.tail_pars(rng, cls, small)] if npar > 1 else [[]]
+        if cls in ("MZgate", "sMZgate", "BSgate"):
+            tails = [[0.0], [og.PI], [0.625]]
+        for tail in tails:
+            for dag in (False, True):
+                for p0 in ([0.0] if cls not in og.ANGLE_CLASSES else [0.0, rng.choice(og.SPECIAL_ANGLES)]):
+                    regs = [rng.choice([0, 1])] if cls in og.GATES1 else rng.choice([[0, 1], [1, 0]])
+                    g = dict(cls=cls, regs=regs, pars=[p0] + list(tail), dagger=dag)
+                    around = [dict(cls="Rgate", regs=[0], pars=[0.25]), dict(cls="Rgate", regs=[0], pars=[0.5]),
+                              dict(cls="Dgate", regs=[1], pars=[0.25, 0.0])]
+                    specs.append(dict(n=2, ops=head + around[:1] + [g] + around[1:]))
+    # interferometers with permutation-like unitaries: the symmetric meshes emit MZgate / sMZgate with exact zeros
+    P2 = [[0, 1], [1, 0]]
+    P3 = [[0, 1, 0], [0, 0, 1], [1, 0, 0]]
+    for U, n in ((P2, 2), (P3, 3), ([[1, 0], [0, 1]], 2)):
+        for mesh in ("rectangular_symmetric", "rectangular", "triangular"):
+            head = [dict(cls="Coherent", regs=[0], pars=[0.5, 0.25]), dict(cls="Squeezed", regs=[1], pars=[0.25, 0.5])]
+            specs.append(dict(n=n, ops=head + [dict(cls="Interferometer", regs=list(range(n)), pars=[dict(mat=U)],
+                                                    kw=dict(mesh=mesh)),
+                                               dict(cls="Rgate", regs=[0], pars=[0.25]), dict(cls="Rgate", regs=[0], pars=[0.5])]))
+    return specs
+
+
+def oracle_special_values(ctx, sf, rng, batch):
+    for spec in special_value_specs(rng):
+        fl = flavour_of(spec)
+        prog, opt = corr_optimizer(ctx, spec, batch, shared_ops=rng.random() < 0.5)
+        if opt is None:
+            continue
+        ctx.count("special:" + next((o["cls"] for o in spec["ops"][3:] if o["cls"] not in ("Rgate", "Dgate")), spec["ops"][3]["cls"]),
+                  ["special", spec], True)
+        comps = ["fock"] if fl == "fock" else ["gaussian", "fock", "bosonic"]
+        try:
+            oracle_program(ctx, sf, spec, fl, prog, opt, True, False, False,
+                           pre=og.pre_segment(rng, spec["n"], fl == "gaussian") if rng.random() < 0.5 else None, compilers=comps)
+        except Exception as e:
+            ctx.fail(f"oracle-raises:{type(e).__name__}", f"executing the programs raised {type(e).__name__}: {str(e)[:200]}",
+                     dict(kind="program", spec=spec, backend=fl, how="optimize"))
 
 
 # ---- merge law of every family, executed
@@ -514,6 +633,10 @@ def law_cases(rng, count):
         b = dict(cls=cls, regs=regs, pars=list(a["pars"]))
         if npar:
             b["pars"][0] = -a["pars"][0] if variant == "inverse" else og.first_par(rng, cls, small)
+        if variant in ("zero1", "zeros") and npar:
+            a["pars"][0] = 0.0
+        if variant in ("zero2", "zeros") and npar:
+            b["pars"][0] = 0.0
         if variant == "dagger2":
             b["dagger"] = True
             if npar and rng.random() < 0.5:
@@ -525,7 +648,7 @@ def law_cases(rng, count):
         return a, b
 
     for cls in allg:
-        for variant in ("plain", "inverse", "dagger2", "dagger1", "daggers"):
+        for variant in ("plain", "inverse", "dagger2", "dagger1", "daggers", "zero1", "zero2", "zeros"):
             cases.append(gate_pair(cls, variant))
     for cls in og.CHANNELS:
         for t1, t2 in ((0.5, 0.25), (1.0, 1.0), (0.75, 1.0), (1 - 2.0 ** -21, 1 - 2.0 ** -21)):
@@ -617,7 +740,7 @@ def corpus_specs():
     return out
 
 
-def run_spec(ctx, sf, spec, batch, backend=None, compiled=True, shared_ops=False, rerun=False):
+def run_spec(ctx, sf, spec, batch, backend=None, compiled=True, shared_ops=False, rerun=False, pre=None):
     prog, opt = corr_optimizer(ctx, spec, batch, shared_ops)
     if opt is None:
         return
@@ -628,7 +751,7 @@ def run_spec(ctx, sf, spec, batch, backend=None, compiled=True, shared_ops=False
     ctx.tally("removed_commands", len(prog.circuit) - len(opt.circuit))
     if backend:
         try:
-            oracle_program(ctx, sf, spec, backend, prog, opt, compiled, shared_ops, rerun)
+            oracle_program(ctx, sf, spec, backend, prog, opt, compiled, shared_ops, rerun, pre=pre)
         except Exception as e:
             ctx.fail(f"oracle-raises:{type(e).__name__}", f"executing the programs raised {type(e).__name__}: {str(e)[:200]}",
                      dict(kind="program", spec=spec, backend=backend, how="optimize", shared=shared_ops))
@@ -642,7 +765,11 @@ def run(ctx, sf):
         if item.get("kind") == "law":
             oracle_law(ctx, sf, item["a"], item["b"])
         else:
-            run_spec(ctx, sf, item["spec"], batch, item.get("backend"), True, shared_ops=True, rerun=True)
+            run_spec(ctx, sf, item["spec"], batch, item.get("backend"), True, shared_ops=True, rerun=True,
+                     pre=item.get("pre"))
+    flush_optimizer(ctx, batch)
+    # exact special values of every gate family, every simulator compiler
+    oracle_special_values(ctx, sf, rng, batch)
     flush_optimizer(ctx, batch)
     # merge rules: correspondence + executed law
     corr_merge(ctx, rng, ctx.n(500, 12000))
@@ -653,6 +780,8 @@ def run(ctx, sf):
     for _ in range(ctx.n(700, 20000)):
         spec = og.gen_spec(rng, rng.randint(1, nmax), rng.randint(2, 16), flavour="any", p_sym=0.25, p_measured=0.3,
                            matrices=True)
+        if rng.random() < 0.3:
+            spec = og.with_leading_preps(rng, spec)
         if rng.random() < 0.25:
             spec = og.with_holes(rng, spec)
         run_spec(ctx, sf, spec, batch, shared_ops=rng.random() < 0.5)
@@ -662,16 +791,23 @@ def run(ctx, sf):
     for _ in range(ctx.n(400, 9000)):
         spec = og.gen_spec(rng, rng.randint(1, 4), rng.randint(2, 12), flavour="gaussian", p_sym=0.15, p_measured=0.25,
                            matrices=True, allow_complex=True)
+        if rng.random() < 0.35:
+            spec = og.with_leading_preps(rng, spec)
         if rng.random() < 0.3:
             spec = og.with_holes(rng, spec)
+        measured = any(o["cls"].startswith("Measure") for o in spec["ops"])
+        pre = og.pre_segment(rng, spec["n"]) if (rng.random() < 0.5 and not measured) else None
         run_spec(ctx, sf, spec, batch, "gaussian", compiled=rng.random() < 0.6, shared_ops=rng.random() < 0.5,
-                 rerun=rng.random() < 0.35)
+                 rerun=rng.random() < 0.35, pre=pre)
     flush_optimizer(ctx, batch)
     # ... and on the fock backend (non-Gaussian families, small parameters, cutoff 10 / 16)
     for _ in range(ctx.n(60, 1500)):
         spec = og.gen_spec(rng, rng.randint(1, 2), rng.randint(2, 8), flavour="fock", p_sym=0.1, near=False)
+        if rng.random() < 0.35:
+            spec = og.with_leading_preps(rng, spec, gaussian=False)
+        pre = og.pre_segment(rng, spec["n"], gaussian=False) if rng.random() < 0.5 else None
         run_spec(ctx, sf, spec, batch, "fock", compiled=rng.random() < 0.4, shared_ops=rng.random() < 0.5,
-                 rerun=rng.random() < 0.25)
+                 rerun=rng.random() < 0.25, pre=pre)
     flush_optimizer(ctx, batch)
     if ctx.tier == "thorough":
         exhaustive(ctx, sf, batch)
@@ -715,5 +851,7 @@ def replay(ctx, rp):
         if rp.get("how") == "compile" and opt is not None:
             oracle_program(ctx, sf, rp["spec"], rp["backend"], prog, opt, True, rp.get("shared", False), True)
     else:
-        oracle_program(ctx, sf, rp["spec"], rp["backend"], None, None, True, rp.get("shared", False), True)
+        bk = rp["backend"]
+        oracle_program(ctx, sf, rp["spec"], bk if bk != "bosonic" else "gaussian", None, None, True, rp.get("shared", False), True,
+                       pre=rp.get("pre"), compilers=[bk])
     return len(ctx.failures) > n0
